@@ -178,9 +178,11 @@ def gen_columnar(items):
         v = const(cm, 'HIGHEST_BIT')
         env['HIGHEST_BIT'] = v
         return D('HIGHEST_BIT', v, cm) + f'\ndef HIGHEST_BIT_BV : BitVec 64 := {v}#64'
+    items.append(lambda: 'namespace Col')
     items.append(highest)
     consts = {'HIGHEST_BIT': 'HIGHEST_BIT_BV'}
     items.append(lambda: bv_fn(cm, 'i64_to_u64', 'val', consts))
     items.append(lambda: bv_fn(cm, 'u64_to_i64', 'val', consts))
     items.append(lambda: bv_fn(cm, 'f64_to_u64', 'val', consts))
     items.append(lambda: bv_fn(cm, 'u64_to_f64', 'val', consts))
+    items.append(lambda: 'end Col')
